@@ -222,3 +222,18 @@ Proof.
   pose proof (cutoff_z_range 10 ltac:(lra)) as H.
   repeat split; try lra; auto with arith.
 Qed.
+
+(* the hypotheses [near_break ..] / [Spec_power_law ..] of the tolerance theorems are inhabited for every s >= 2
+   (here s = 5/2, kappa = 10): the loop stops somewhere, and the model's value there meets the specification *)
+Example C19_nonvacuous_near_break :
+  (exists K, near_break (pl_term (5 / 2)) K) /\
+  (exists K, near_break (co_term (5 / 2) (cutoff_z 10)) K) /\
+  (exists x, Spec_power_law (5 / 2) 3 x) /\ (exists x, Spec_cutoff (5 / 2) 10 3 x).
+Proof.
+  pose proof (cutoff_z_range 10 ltac:(lra)) as Hz.
+  destruct (power_law_loop_terminates (5 / 2) ltac:(lra)) as [K1 H1].
+  destruct (cutoff_loop_terminates (5 / 2) (cutoff_z 10) ltac:(lra) ltac:(lra)) as [K2 H2].
+  split; [exists K1; apply is_break_near_break, H1|].
+  split; [exists K2; apply is_break_near_break, H2|].
+  split; [eexists; apply (model_power_law_spec _ _ 3%nat H1) | eexists; apply (model_cutoff_spec _ _ _ 3%nat H2)].
+Qed.
